@@ -1,8 +1,13 @@
 #include <AIToolbox/POMDP/Algorithms/AMDP.hpp>
 
+#include <stdexcept>
+
 namespace AIToolbox::POMDP {
     AMDP::AMDP(const size_t nBeliefs, const size_t entropyBuckets) :
-            beliefSize_(nBeliefs), buckets_(entropyBuckets) {}
+            beliefSize_(nBeliefs), buckets_(entropyBuckets)
+    {
+        if ( buckets_ == 0 ) throw std::invalid_argument("AMDP needs at least one entropy bucket");
+    }
 
     AMDP::Discretizer AMDP::makeDiscretizer(const size_t S) {
         // This is because lambdas are stupid and can't
@@ -34,6 +39,7 @@ namespace AIToolbox::POMDP {
     }
 
     void AMDP::setEntropyBuckets(const size_t buckets) {
+        if ( buckets == 0 ) throw std::invalid_argument("AMDP needs at least one entropy bucket");
         buckets_ = buckets;
     }
 
